@@ -781,6 +781,43 @@ fn run_xen_buffers(_t: &mut Tape, _cx: &mut Cx) -> Result<(), String> {
     Ok(())
 }
 
+/// One very large buffer (hundreds of MiB of untouched anonymous memory) written to /dev/null:
+/// the count is what std's write returns for an ordinary buffer of the same length.
+fn run_huge_buffer(t: &mut Tape, cx: &mut Cx) -> Result<(), String> {
+    let len: usize = t.pick(&[192usize << 20, (128 << 20) + 4096, 1 << 30]);
+    let all = t.flag();
+    note!(cx, "/dev/null.{}(buffer of {} MiB)", if all { "write_all" } else { "write" }, len >> 20);
+    cx.nt("huge_buffer");
+    // SAFETY: anonymous, never touched (the null device does not read its input), released below.
+    let p = unsafe { libc::syscall(libc::SYS_mmap, 0usize, len, libc::PROT_READ | libc::PROT_WRITE, libc::MAP_PRIVATE | libc::MAP_ANONYMOUS | libc::MAP_NORESERVE, -1isize, 0usize) } as usize;
+    ensure!(p != usize::MAX, "HARNESS-PANIC: mmap of {} bytes failed", len);
+    let res = (|| -> Result<(), String> {
+        let mut v = std::fs::OpenOptions::new().write(true).open("/dev/null").map_err(|e| e.to_string())?;
+        let mut s = std::fs::OpenOptions::new().write(true).open("/dev/null").map_err(|e| e.to_string())?;
+        // SAFETY: the mapping is live until the end of this function.
+        let vs = unsafe { VolatileSlice::new(p as *mut u8, len) };
+        // SAFETY: as above; zero pages.
+        let plain = unsafe { std::slice::from_raw_parts(p as *const u8, len) };
+        if all {
+            let rv = v.write_all_volatile(&vs);
+            let rs = s.write_all(plain);
+            cmp_unit("huge write_all", &rv, &rs)?;
+        } else {
+            let rv = v.write_volatile(&vs);
+            let rs = s.write(plain);
+            cmp_count("huge write", &rv, &rs)?;
+        }
+        Ok(())
+    })();
+    // SAFETY: releasing the harness mapping.
+    unsafe { libc::syscall(libc::SYS_munmap, p, len) };
+    res
+}
+
+fn gen_huge(_t: Tier) -> Box<dyn Iterator<Item = Vec<u64>>> {
+    Box::new((0..3u64).flat_map(|l| (0..2u64).map(move |a| vec![l, a])))
+}
+
 pub fn property() -> Property {
     Property {
         id: "C13",
@@ -789,6 +826,7 @@ pub fn property() -> Property {
         subchecks: vec![
             SubCheck { name: "memory", builds: &[Build::Std], kind: Kind::Random { quick: 60_000, thorough: 3_000_000, max_words: 64 }, run: run_memory },
             SubCheck { name: "fd", builds: &[Build::Std], kind: Kind::Random { quick: 4_000, thorough: 120_000, max_words: 64 }, run: run_fd },
+            SubCheck { name: "huge_buffer", builds: &[Build::Std], kind: Kind::Exhaustive { gen: gen_huge }, run: run_huge_buffer },
             SubCheck { name: "xen_buffers", builds: &[Build::Xen], kind: Kind::Random { quick: 4_000, thorough: 120_000, max_words: 64 }, run: run_xen_buffers },
         ],
     }
